@@ -260,6 +260,11 @@ class Sectionable(BaseObject):
             if section.name in self._sections:
                 raise ValueError("Section with name '%s' already exists." % section.name)
 
+            # If required remove the Section from its previous parent first,
+            # an object must never be a child of two parents.
+            if section._parent is not None:
+                section._parent.remove(section)
+
             self._sections.insert(position, section)
             section._parent = self
         else:
@@ -273,7 +278,12 @@ class Sectionable(BaseObject):
         """
         from odml.section import BaseSection
         if isinstance(section, BaseSection):
+            old_parent = section._parent
             self._sections.append(section)
+            # If required remove the Section from its previous parent,
+            # an object must never be a child of two parents.
+            if old_parent is not None:
+                old_parent.remove(section)
             section._parent = self
         elif isinstance(section, Iterable) and not isinstance(section, str):
             raise ValueError("Use extend to add a list of Sections.")
